@@ -58,6 +58,12 @@ Proof.
   rewrite Z in H. pose proof (L c) as Hl. rewrite H, app_length in Hl. cbn in Hl. lia.
 Qed.
 
+Lemma ends_nul_false c : ends_nul c = false -> no_trailing_nul c.
+Proof.
+  unfold ends_nul. destruct c as [|x c] using rev_ind; [intros _; reflexivity|].
+  rewrite rev_app_distr. cbn. intros E. apply no_trailing_nul_snoc. now apply N.eqb_neq.
+Qed.
+
 Section Framer.
 Variable cks : bytes -> bytes.
 Variable P : params.
@@ -118,7 +124,7 @@ Theorem frame_layout c p c12 : pad_command c = Some c12 ->
 Proof.
   intros Hp. unfold Bitcoin.frame, header. rewrite Hp.
   unfold pad_command in Hp. remember (12 - length c) as k eqn:Hk.
-  destruct (length c <=? 12) eqn:E; [|discriminate].
+  destruct (length c <=? 12) eqn:E; [|discriminate]. destruct (ends_nul c); [discriminate|].
   apply Nat.leb_le in E. injection Hp as <-. split; [|split].
   - now rewrite <- !app_assoc.
   - rewrite app_length, repeat_length. lia.
@@ -187,6 +193,22 @@ Proof.
              Hl (le_bytes_length _ _) (cks_len p) Hv).
   - rewrite bytes_eqb_refl', Hr. reflexivity.
   - rewrite Hr, Hv. exact Ho.
+Qed.
+
+(* what frame accepts is representable: at most 12 bytes, not ending with NUL *)
+Lemma frame_some_command c p f : frame c p = Some f -> length c <= 12 /\ no_trailing_nul c.
+Proof.
+  unfold Bitcoin.frame, pad_command. destruct (length c <=? 12) eqn:E; [|discriminate].
+  destruct (ends_nul c) eqn:En; [discriminate|]. intros _. split; [now apply Nat.leb_le|now apply ends_nul_false].
+Qed.
+
+(* the round trip for everything frame accepts *)
+Theorem roundtrip_stream_full c p rest f :
+  (N.of_nat (length p) < 4294967296)%N -> oversized c (N.of_nat (length p)) = false ->
+  frame c p = Some f -> parse_one (f ++ rest) = (Delivered c p, rest).
+Proof.
+  intros Hp Ho Hf. destruct (frame_some_command c p f Hf) as [H1 H2].
+  apply roundtrip_stream; auto. repeat split; auto.
 Qed.
 
 (* every chunking of the framed message (followed by anything) yields the message and
